@@ -63,8 +63,10 @@ def harness_dir():
     with Lock("harness"):
         if not os.path.exists(os.path.join(d, "apiharness")):
             # drop stale harness builds
+            # (another check may still be running against an older build: only drop builds
+            #  nobody has touched for two hours)
             for old in glob.glob(os.path.join(BUILD, "harness-*")):
-                if old != d and os.path.isdir(old):
+                if old != d and os.path.isdir(old) and time.time() - os.path.getmtime(old) > 7200:
                     shutil.rmtree(old, ignore_errors=True)
             os.makedirs(d, exist_ok=True)
             env = dict(os.environ, VERIF_REPO=REPO)
